@@ -31,6 +31,7 @@ type structOffender struct {
 
 // spec syntax:
 //   writers:<pkgname>.<Type>.<field>=<funcKey>,<funcKey>,…
+//   allpaths:<funcKey>=close(<field>)|go(<method name>)|…   (every path from entry to a return passes one of these)
 //   nocall:<funcKey-prefix-list>-><funcKey-prefix-list>
 //   nodirectcall:<funcKey-list>-><funcKey-list>   (calls in the bodies of the first list only)
 func (eng *Engine) structuralObligations(pc *PropConfig) []structObl {
@@ -57,6 +58,8 @@ func (eng *Engine) structuralObligations(pc *PropConfig) []structObl {
 			out = append(out, eng.writersObl(strings.TrimPrefix(s, "writers:"), false))
 		case strings.HasPrefix(s, "mapwriters:"):
 			out = append(out, eng.mapWritersObl(strings.TrimPrefix(s, "mapwriters:")))
+		case strings.HasPrefix(s, "allpaths:"):
+			out = append(out, eng.allPathsObl(strings.TrimPrefix(s, "allpaths:")))
 		case strings.HasPrefix(s, "nocall:"):
 			out = append(out, eng.noCallObl(strings.TrimPrefix(s, "nocall:"), false))
 		case strings.HasPrefix(s, "nodirectcall:"):
@@ -308,4 +311,117 @@ func (eng *Engine) noCallObl(spec string, direct bool) structObl {
 		}
 	}
 	return structObl{Name: name, OK: true, Detail: ""}
+}
+
+// allpaths:<funcKey>=ev1|ev2|… : on every control-flow path of the function from its entry to a return, at least one
+// of the events happens.  Events: close(<field>) - the builtin close applied to a channel loaded from a struct field
+// of that name; go(<name>) - a go statement starting a function or method of that name.  Forward must-analysis over the
+// SSA control-flow graph (a loop that can be left only through blocks that have seen an event counts; paths that end in
+// panic are ignored).
+func (eng *Engine) allPathsObl(spec string) structObl {
+	name := "allpaths:" + spec
+	parts := strings.SplitN(spec, "=", 2)
+	if len(parts) != 2 {
+		return structObl{Name: name, OK: false, Detail: "bad spec"}
+	}
+	fn := eng.FuncByKey(strings.TrimSpace(parts[0]))
+	if fn == nil || len(fn.Blocks) == 0 {
+		return structObl{Name: name, OK: false, Detail: "contract-target-missing: " + parts[0]}
+	}
+	type ev struct{ kind, arg string }
+	var evs []ev
+	for _, e := range strings.Split(parts[1], "|") {
+		e = strings.TrimSpace(e)
+		switch {
+		case strings.HasPrefix(e, "close(") && strings.HasSuffix(e, ")"):
+			evs = append(evs, ev{"close", e[6 : len(e)-1]})
+		case strings.HasPrefix(e, "go(") && strings.HasSuffix(e, ")"):
+			evs = append(evs, ev{"go", e[3 : len(e)-1]})
+		default:
+			return structObl{Name: name, OK: false, Detail: "unknown event " + e}
+		}
+	}
+	isEvent := func(ins ssa.Instruction) bool {
+		for _, e := range evs {
+			switch e.kind {
+			case "close":
+				var cc *ssa.CallCommon
+				switch x := ins.(type) {
+				case *ssa.Call:
+					cc = &x.Call
+				case *ssa.Defer:
+					continue // a deferred close runs at return, but only if the defer statement was reached: handled below
+				}
+				if cc == nil {
+					continue
+				}
+				if b, ok := cc.Value.(*ssa.Builtin); ok && b.Name() == "close" && len(cc.Args) == 1 {
+					if u, ok := cc.Args[0].(*ssa.UnOp); ok {
+						if fa, ok := u.X.(*ssa.FieldAddr); ok {
+							pt := fa.X.Type().Underlying().(*types.Pointer).Elem()
+							if under(pt).(*types.Struct).Field(fa.Field).Name() == e.arg {
+								return true
+							}
+						}
+					}
+				}
+			case "go":
+				if g, ok := ins.(*ssa.Go); ok {
+					if callee := g.Call.StaticCallee(); callee != nil && callee.Name() == e.arg {
+						return true
+					}
+				}
+			}
+		}
+		return false
+	}
+	// seen[b] = an event has certainly happened on every path reaching the END of block b
+	n := len(fn.Blocks)
+	out := make([]bool, n)
+	for i := range out {
+		out[i] = true // optimistic
+	}
+	has := make([]bool, n)
+	for i, b := range fn.Blocks {
+		for _, ins := range b.Instrs {
+			if isEvent(ins) {
+				has[i] = true
+			}
+		}
+	}
+	for changed := true; changed; {
+		changed = false
+		for i, b := range fn.Blocks {
+			in := len(b.Preds) > 0
+			for _, p := range b.Preds {
+				if !out[p.Index] {
+					in = false
+				}
+			}
+			if i == 0 {
+				in = false
+			}
+			v := in || has[i]
+			if v != out[i] {
+				out[i] = v
+				changed = true
+			}
+		}
+	}
+	var bad []string
+	for i, b := range fn.Blocks {
+		if len(b.Instrs) == 0 {
+			continue
+		}
+		if b == fn.Recover || (i != 0 && len(b.Preds) == 0) {
+			continue // the recover block / unreachable blocks: not a normal path
+		}
+		if ret, ok := b.Instrs[len(b.Instrs)-1].(*ssa.Return); ok && !out[i] {
+			bad = append(bad, eng.prog.Fset.Position(ret.Pos()).String())
+		}
+	}
+	if len(bad) > 0 {
+		return structObl{Name: name, OK: false, Detail: "a path reaches the return at " + strings.Join(bad, ", ") + " without any of: " + parts[1]}
+	}
+	return structObl{Name: name, OK: true}
 }
